@@ -31,7 +31,7 @@ import (
 
 func init() {
 	Register(&Rule{ID: "R-PAR-5", Props: []string{"C12", "C13", "C03", "C04", "C17"}, Floor: 16,
-		Doc: "the task ranges tile the input: (a) RecordRange, evaluated path by path as polynomials over (routineIndex, recordLen, Number, the opaque quotient recordLen/Number): start(0) = 0, end(i) = start(i+1) on every path of a task that is not the last, end = recordLen on the paths of the last task, an empty range only where recordLen ≤ start(i); (b) every consumer of a RecordRange result walks exactly [start, end) — an induction variable initialised with start, stepped by one and tested with `< end`, or the slice [start:end]; (c) every function that takes the range of its task-index parameter is started with an induction variable 0, 1, … < Number (go statements) or with the constant 0 on the inline branch. Decides that the workers' rows partition [0, recordLen) for every --cpu; not that Number ≥ 1 (R-ERR-5)",
+		Doc:      "the task ranges tile the input: (a) RecordRange, evaluated path by path as polynomials over (routineIndex, recordLen, Number, the opaque quotient recordLen/Number): start(0) = 0, end(i) = start(i+1) on every path of a task that is not the last, end = recordLen on the paths of the last task, an empty range only where recordLen ≤ start(i); (b) every consumer of a RecordRange result walks exactly [start, end) — an induction variable initialised with start, stepped by one and tested with `< end`, or the slice [start:end]; (c) every function that takes the range of its task-index parameter is started with an induction variable 0, 1, … < Number (go statements) or with the constant 0 on the inline branch. Decides that the workers' rows partition [0, recordLen) for every --cpu; not that Number ≥ 1 (R-ERR-5)",
 		Controls: []string{"CtlTileDropsTail", "CtlTileOverlap", "CtlTileSkipsFirstRow", "ctlTileConsumerInclusive", "ctlTileSpawnFromOne"},
 		Run:      rulePar5})
 }
